@@ -246,7 +246,6 @@ theorem copyColls_zero_contents (src dst : List Coll) (s : FileSt)
     simp only [copyColls]
     rw [collsSet_append_gt dst ⟨c.name, c.cmp, .nil⟩ hlt]
     have e := copyItems_zero_last c.name c.cmp c.root.toList 0 dst .nil s hlt
-    have e2 := copyItems_zero c.name c.cmp c.root.toList 0 (dst ++ [⟨c.name, c.cmp, .nil⟩]) s
     have hnames' : ((dst ++ [(⟨c.name, c.cmp,
         c.root.toList.foldl (Tree.setItem c.cmp.fn) .nil⟩ : Coll)]) ++ rest).Pairwise
         (fun a b => compare a.name b.name = .lt) := by
